@@ -38,6 +38,9 @@ func nestings() []struct{ name, pre, suf string } {
 		{"plain", "", ""},
 		{"100-prefix-minus", strings.Repeat("- ", 100), ""},
 		{"3000-prefix-minus", strings.Repeat("- ", 3000), ""},
+		{"400-term-binary-chain", "", strings.Repeat(" - 1", 400)},
+		{"3000-term-binary-chain", "", strings.Repeat(" + 1", 3000)},
+		{"300-term-comparison-and-logic-chain", "", strings.Repeat(" && 1", 300)},
 		{"100-parens-and-plus", strings.Repeat("1 + (", 100), strings.Repeat(")", 100)},
 		{"3000-array-literals", strings.Repeat("[", 3000), strings.Repeat("]", 3000)},
 	}
@@ -132,6 +135,10 @@ func c20Cases_() []limitCase {
 	out = append(out, limitCase{name: "array/huge-then-small", prog: "BEGIN { print 'marker'; a[2000000] = 1 }", want: "error", marker: "marker\n"})
 
 	// printf width
+	// a width taken from the argument list is not part of the language: '*' is an unknown code, whatever the argument
+	for _, a := range []string{"5", "70000", "-3000000000", "4000000000000000000", "-70000", "65537"} {
+		out = append(out, limitCase{name: "printf/%*s/" + a, prog: "BEGIN { print 'marker'; printf('%*s|', " + a + ", 'x'); print ''; print 'done' }", want: "error", marker: "marker\n"})
+	}
 	for _, w := range []struct{ w, band string }{{"9999999999999999999", "error"}, {"12345678901234567890", "error"}, {"-9223372036854775809", "error"}, {"9223372036854775807", "error"}, {"9223372036854775808", "error"},
 		{"18446744073709551616", "error"}, {"18446744073709551621", "error"}, {"18446744073709617152", "error"}, {"4294967296", "error"}, {"4294967301", "error"}, {"-4294967301", "error"}, {"2147483648", "error"}, {"340282366920938463463374607431768211461", "error"}, {"000000000000000000000000000005", "either"}, {"65535", "ok"}, {"-65535", "ok"},
 		{"4096", "ok"}, {"65536", "ok"}, {"-65536", "ok"}, {"065536", "ok"}, {"65537", "error"}, {"-65537", "error"}, {"10000000000", "error"}, {"-10000000000", "error"}, {"999999999999999999999999999999", "error"}, {"100000", "error"}} {
@@ -239,7 +246,7 @@ func c20Run(c *Case) {
 func init() {
 	register(&Prop{
 		ID: "C20", Level: "exploration",
-		Rule:             "enumerated boundary programs, each run in its own subprocess under a 4 GiB address-space limit (process death, also by running out of memory, is a violation): recursion of 6 shapes (direct, mutual-2, mutual-3, through match expression body, through match block body, through an argument) x 5 per-level expression nestings (none, 100 / 3000 prefix operators, 100 parenthesised additions, 3000 array literals) x depth targets {1000, 3000, unbounded}, each shape also entered through one / two wrapper functions and from inside match bodies (so that the frame crossing the limit is a function frame in some and a match frame in others), plus recursion from a rule pattern and with two recursive calls; ordinary long histories at shallow depth (70000-150000 loop rounds / calls / input values with signals, 300 x 900-deep recursion) must not be refused; array stores and reads at indices 999999 / 1000000 / 1048576 / 1048577 / 1999999 / 2000000 / 1e9 / 1e18 / 1e23 / -1 / -1e18 / 0.5 on empty and non-empty arrays, through $-paths, through freshly created nested paths, repeated in a loop, and beyond the limit on an array that is already a million long (the limit is on the index, not on the distance); printf widths 4096 / +-65535 / +-65536 / 065536 / +-65537 / 1e5 / +-1e10 / 30 digits, and widths at and beyond 2^31, 2^32, 2^63, 2^64, 2^128 (+ small offsets, which wrap to small numbers in fixed-width arithmetic) for %s %f %v; JSON input nested 1000 / 5000 / 9999 / 10001 / 20000 / 1000000 deep in arrays, objects and mixtures followed by a second value, and a million unclosed brackets. Oracle: bands, not today's constants (1000 frames, index <= 1e6, width <= 65536, nesting <= 5000 must work; unbounded recursion, index >= 2e6, width > 65536, nesting >= 20000 must be an ordinary runtime/JSON error; in between either), the marker printed before the step must be kept. Evidence: peak RSS per family and the frame depth at refusal (hook). Every case is non-trivial.",
+		Rule:             "enumerated boundary programs, each run in its own subprocess under a 4 GiB address-space limit (process death, also by running out of memory, is a violation): recursion of 6 shapes (direct, mutual-2, mutual-3, through match expression body, through match block body, through an argument) x 8 per-level expression nestings (none, 100 / 3000 prefix operators, 100 parenthesised additions, 3000 array literals, chains of 400 / 3000 / 300 binary operators) x depth targets {1000, 3000, unbounded}, each shape also entered through one / two wrapper functions and from inside match bodies (so that the frame crossing the limit is a function frame in some and a match frame in others), plus recursion from a rule pattern and with two recursive calls; ordinary long histories at shallow depth (70000-150000 loop rounds / calls / input values with signals, 300 x 900-deep recursion) must not be refused; array stores and reads at indices 999999 / 1000000 / 1048576 / 1048577 / 1999999 / 2000000 / 1e9 / 1e18 / 1e23 / -1 / -1e18 / 0.5 on empty and non-empty arrays, through $-paths, through freshly created nested paths, repeated in a loop, and beyond the limit on an array that is already a million long (the limit is on the index, not on the distance); printf widths 4096 / +-65535 / +-65536 / 065536 / +-65537 / 1e5 / +-1e10 / 30 digits, and widths at and beyond 2^31, 2^32, 2^63, 2^64, 2^128 (+ small offsets, which wrap to small numbers in fixed-width arithmetic) for %s %f %v; JSON input nested 1000 / 5000 / 9999 / 10001 / 20000 / 1000000 deep in arrays, objects and mixtures followed by a second value, and a million unclosed brackets. Oracle: bands, not today's constants (1000 frames, index <= 1e6, width <= 65536, nesting <= 5000 must work; unbounded recursion, index >= 2e6, width > 65536, nesting >= 20000 must be an ordinary runtime/JSON error; in between either), the marker printed before the step must be kept. Evidence: peak RSS per family and the frame depth at refusal (hook). Every case is non-trivial.",
 		NumCases:         func(tier string) int { return len(c20List) },
 		Run:              c20Run,
 		MinConclusive:    func(tier string) int { return len(c20List) * 9 / 10 },
